@@ -311,3 +311,30 @@ func runC06(c *Ctx) {
 		c.verdict(len(bad) == 0 && n >= 2 && len(adds) == 1, c.nm(gb)+" | cache get, cache put and getdata use the same inventory vector", c.P.Pos(gb.Pos()), "Get(*inv), Put(*inv, ..), AddInvVect(inv)", join(bad)+fmt.Sprintf(" (%d cache accesses, %d getdata vectors)", n, len(adds)), sites...)
 	})
 }
+
+const blockValidatedDoc = "an invalid block is recognised as such: in GetBlock's response handler accepting the block (store to the result variable, positive Progress) lies behind blockchain.CheckBlockSanity = nil and blockchain.ValidateWitnessCommitment = nil on every path (a validation that is skipped for some class of blocks can neither reject the block nor lead to the ban of its sender)"
+
+// blockValidated: see blockValidatedDoc (the validator part of C06.G1, also C13.G2).
+func (c *Ctx) blockValidated() {
+	fn := c.fn(fnGetBlock)
+	cl := c.handleRespOf(fn)
+	var stores []ssa.Instruction
+	ir.Instrs(cl, func(in ssa.Instruction) {
+		if st, ok := in.(*ssa.Store); ok {
+			if _, isFV := st.Addr.(*ssa.FreeVar); isFV {
+				if p, ok := st.Val.Type().(*types.Pointer); ok {
+					if n, ok := p.Elem().(*types.Named); ok && n.Obj().Name() == "Block" {
+						stores = append(stores, in)
+					}
+				}
+			}
+		}
+	})
+	eff := append(append([]ssa.Instruction{}, stores...), progressReturns(cl, true)...)
+	const en = "accept block (foundBlock = block / positive progress)"
+	sanity := c.funcObj(pBlockchain, "CheckBlockSanity")
+	witness := c.funcObj(pBlockchain, "ValidateWitnessCommitment")
+	sc, wc := vcallInstrs(c.validatorCalls(cl, sanity, 0)), vcallInstrs(c.validatorCalls(cl, witness, 0))
+	c.guarded(cl, errNil("blockchain.CheckBlockSanity", sc, 0), 1, en, eff, 2, gDominate)
+	c.guarded(cl, errNil("blockchain.ValidateWitnessCommitment", wc, 0), 1, en, eff, 2, gDominate)
+}
